@@ -1405,6 +1405,16 @@ Proof.
   - rewrite filter_In, Hb, Z.eqb_eq. intuition discriminate.
 Qed.
 
+Lemma qs_cands_iff ps pc input x :
+  length input <> 0 -> Forall (fun v => (0 <= v)%Z) input ->
+  (In x (qs_cands ps pc input) <->
+   (length x = length input /\ Forall (fun v => (0 <= v)%Z) x /\ zsum x = zsum input /\
+    (pc = true \/ zmax x = 1%Z)) /\ ps x = Ok true).
+Proof.
+  intros Hm Hp. unfold qs_cands. rewrite filter_In, (qs_basis_iff pc input x Hm Hp). unfold ps_acc.
+  destruct (ps x) as [[|]|]; intuition congruence.
+Qed.
+
 Lemma zmax_bounds s : Forall (fun v => (0 <= v)%Z) s -> (0 <= zmax s)%Z /\ Forall (fun v => (v <= zmax s)%Z) s.
 Proof.
   induction 1 as [|x s Hx _ [IH1 IH2]]; simpl; [split; [lia|constructor]|].
@@ -1513,3 +1523,338 @@ Section QuickSampler.
     clear. induction kept as [|a kept IH]; simpl; [reflexivity|]. rewrite IH. reflexivity.
   Qed.
 End QuickSampler.
+
+Lemma filter_ext_in' {A} (f g : A -> bool) l : (forall a, In a l -> f a = g a) -> filter f l = filter g l.
+Proof.
+  induction l as [|a l IH]; intros H; simpl; [reflexivity|].
+  rewrite (H a (or_introl eq_refl)), IH by (intros; apply H; right; assumption). reflexivity.
+Qed.
+
+Lemma qs_basis_length pc input x : length input <> 0 -> In x (qs_basis pc input) -> length x = length input.
+Proof.
+  intros Hm H. unfold qs_basis in H. cbv zeta in H.
+  assert (G : In x (map zs (fock_sums (length input) (Z.to_nat (zsum input))))).
+  { destruct pc; [exact H|]. apply filter_In in H. exact (proj1 H). }
+  apply in_map_iff in G. destruct G as [c [<- Hc]].
+  apply (fock_sums_enum (length input) _ ltac:(lia)) in Hc. rewrite zs_length. exact (proj1 Hc).
+Qed.
+
+Section QuickSamplerR.
+  Local Open Scope R_scope.
+  Local Notation P := (prob_of rops).
+
+  Lemma qs_w_nonneg l (U : @mat C) hout fin x : 0 <= qs_w rops l U hout fin x.
+  Proof. unfold qs_w. destruct (add_heralds_to_state x hout); [apply prob_of_nonneg|simpl; lra]. Qed.
+
+  (* the quick sampler's weight of a candidate in terms of the Sampler *)
+  Definition qs_sw (b : backend) (n l : nat) (U : @mat C) (hin hout : hdict) (input x : state) : R :=
+    match add_heralds_to_state x hout with
+    | Ok fo => sampler_p b n l U hin input (znat fo)
+    | Err _ => 0
+    end.
+
+  Theorem quick_sampler_spec b n l (U : @mat C) hin hout ps pc input pd :
+    (0 < n)%nat -> (length hin <= n)%nat -> length hout = length hin ->
+    quick_sampler rops 0 n l U hin hout ps pc input = Ok pd ->
+    let cands := qs_cands ps pc input in
+    let w := qs_sw b n l U hin hout input in
+    let W := suml rops cands w in
+    sampler_accepts b n l U hin input /\ 0 < W /\
+    pd = map (fun x => (x, w x / W)) (filter (fun x => klt rops 0 (w x)) cands).
+  Proof.
+    intros Hn Hh Hho H.
+    destruct (quick_sampler_struct rops 0 n l U hin hout ps pc input pd H) as (Hl & Hv & Hm & fi & Hfi & Hs).
+    cbv zeta in Hs. destruct Hs as (Hcne & Hkne & Hall & Hpd). cbv zeta.
+    set (fin := znat fi ++ repeat 0%nat l) in *.
+    set (w0 := qs_w rops l U hout fin) in *.
+    set (cands := qs_cands ps pc input) in *.
+    assert (HA : forall x, In x cands -> w0 x = qs_sw b n l U hin hout input x).
+    { intros x Hx. rewrite Forall_forall in Hall. destruct (Hall x Hx) as (fo & Hfo & Hos).
+      unfold w0, qs_w, qs_sw. rewrite Hfo.
+      assert (Hlx : length x = length input).
+      { apply (qs_basis_length pc input x Hm). unfold cands, qs_cands in Hx. apply filter_In in Hx. exact (proj1 Hx). }
+      assert (Hlk : length (znat fo) = n).
+      { rewrite znat_length, (add_heralds_length _ _ _ Hfo). lia. }
+      unfold fin in Hos. rewrite !osum_app, !osum_repeat0, !Nat.add_0_r in Hos.
+      rewrite (sampler_p_marginal b n l U hin input fi (znat fo) Hn Hh Hl Hv Hfi Hlk); try lia.
+      unfold entry_val. rewrite osum_app, osum_repeat0, Nat.add_0_r, Hos, Nat.sub_diag.
+      rewrite loss_cfgs_zero. unfold fin. simpl. ring. }
+    assert (HB : suml rops (filter (fun x => klt rops 0 (w0 x)) cands) w0 = suml rops cands w0).
+    { rewrite (suml_filter (r:=rops)). apply (suml_ext (o:=rops)). intros x _. apply klt0_val. apply qs_w_nonneg. }
+    split; [eexists; apply (sampler_dist_ok b n l U hin input fi Hl Hv Hfi)|].
+    assert (HW : suml rops cands (qs_sw b n l U hin hout input) = suml rops cands w0).
+    { apply (suml_ext (o:=rops)). intros x Hx. symmetry. apply HA. exact Hx. }
+    split.
+    - rewrite HW. destruct (filter (fun x => klt rops 0 (w0 x)) cands) as [|x0 kept] eqn:Ek; [contradiction|].
+      assert (Hin : In x0 (filter (fun x => klt rops 0 (w0 x)) cands)) by (rewrite Ek; left; reflexivity).
+      apply filter_In in Hin. destruct Hin as [Hin Hp]. apply klt_spec in Hp.
+      pose proof (suml_rops_term_le cands w0 x0 (fun y _ => qs_w_nonneg l U hout fin y) Hin). lra.
+    - rewrite Hpd, HB, HW.
+      rewrite (filter_ext_in' (fun x => klt rops 0 (w0 x)) (fun x => klt rops 0 (qs_sw b n l U hin hout input x)) cands)
+        by (intros x Hx; rewrite (HA x Hx); reflexivity).
+      apply map_ext_in. intros x Hx. apply filter_In in Hx. rewrite (HA x (proj1 Hx)). reflexivity.
+  Qed.
+
+  (* ---- squared Simulator amplitudes, lossless ---- *)
+  Lemma valid_state_iff m s : valid_state m s <-> length s = m /\ st_validate s = Ok tt.
+  Proof. unfold valid_state. rewrite st_validate_ok. tauto. Qed.
+
+  Theorem sim_sq_eq_sampler b n (U : @mat C) hin hout inputs outputs outs rows :
+    (0 < n - length hin)%nat -> herald_ok n hin -> herald_ok n hout ->
+    length hout = length hin -> hd_photons hin = hd_photons hout ->
+    simulate rops n 0 U hin hout (n - length hin) inputs outputs = Ok (outs, rows) ->
+    Forall2 (fun i row =>
+               sampler_accepts b n 0 U hin i /\
+               Forall2 (fun x e => exists fo, add_heralds_to_state x hout = Ok fo /\
+                                   cnorm2 rops (fst e) / IZR (Z.of_nat (snd e)) = sampler_p b n 0 U hin i (znat fo))
+                       outs row)
+            inputs rows.
+  Proof.
+    intros Hm Hhin Hhout Hho Hph H.
+    assert (Hn : (0 < n)%nat) by lia. assert (Hh : (length hin <= n)%nat) by lia.
+    pose proof (simulate_entries rops _ _ _ _ _ _ _ _ _ _ H) as [Houts Hent].
+    (* validity and photon numbers of the states involved *)
+    assert (Hval : Forall (valid_state (n - length hin)) inputs /\ Forall (valid_state (n - length hin)) outs /\
+                   forall i x, In i inputs -> In x outs -> zsum i = zsum x).
+    { unfold simulate in H. destruct (check_states (n - length hin) inputs) as [[]|] eqn:Ec; cbn [bind] in H; [|discriminate].
+      apply check_states_ok in Ec. split; [exact Ec|].
+      destruct outputs as [os|].
+      - subst outs. destruct (check_states (n - length hin) os) as [[]|] eqn:Eo; cbn [bind] in H; [|discriminate].
+        apply check_states_ok in Eo. split; [exact Eo|].
+        destruct (all_equal (map zsum (inputs ++ os))) eqn:Ea; cbn [bind] in H; [|discriminate].
+        pose proof (proj1 (all_equal_spec _) Ea) as Ea'. clear Ea. rename Ea' into Ea. intros i x Hi Hx.
+        apply Ea; apply in_map; apply in_or_app; [left|right]; assumption.
+      - destruct inputs as [|i0 inputs']; [discriminate|].
+        destruct (all_equal (map zsum (i0 :: inputs'))) eqn:Ea; cbn [bind] in H; [|discriminate].
+        pose proof (proj1 (all_equal_spec _) Ea) as Ea'. clear Ea. rename Ea' into Ea. simpl hd in Houts.
+        assert (H0 : (0 <= zsum i0)%Z).
+        { inversion Ec as [|? ? [_ Hp] _]; subst. clear -Hp. induction Hp; simpl; lia. }
+        split.
+        + subst outs. apply Forall_forall. intros x Hx. apply in_map_iff in Hx. destruct Hx as [c [<- Hc]].
+          apply (fock_sums_enum _ _ Hm) in Hc. split; [unfold zs; rewrite map_length; exact (proj1 Hc)|apply zs_nonneg].
+        + intros i x Hi Hx. subst outs. apply in_map_iff in Hx. destruct Hx as [c [<- Hc]].
+          apply (fock_sums_enum _ _ Hm) in Hc. change (map Z.of_nat c) with (zs c). rewrite zsum_zs, (proj2 Hc).
+          rewrite (Ea (zsum i) (zsum i0)); [lia|apply in_map; exact Hi|left; reflexivity]. }
+    destruct Hval as (Vi & Vo & Vs).
+    eapply Forall2_impl_Forall; [| exact Hent |].
+    { apply Forall_forall. intros i Hi. exact (conj Hi (proj1 (Forall_forall _ _) Vi i Hi)). }
+    intros i row [Hi [Hli Hpi]] (fi & Hfi & Hrow).
+    assert (Hvi : st_validate i = Ok tt) by (apply st_validate_ok; exact Hpi).
+    destruct (add_heralds_total n hin i Hhin Hli Hh Hpi) as (fi' & Hfi' & Hlfi & _ & Hsfi).
+    rewrite Hfi in Hfi'. injection Hfi' as <-.
+    split; [eexists; apply (sampler_dist_ok b n 0 U hin i fi Hli Hvi Hfi)|].
+    eapply Forall2_impl_Forall; [| exact Hrow |].
+    { apply Forall_forall. intros x Hx. exact (conj Hx (proj1 (Forall_forall _ _) Vo x Hx)). }
+    intros x e [Hx [Hlx Hpx]] (fx & Hfx & ->). exists fx. split; [exact Hfx|].
+    destruct (add_heralds_total n hout x Hhout ltac:(lia) ltac:(lia) Hpx) as (fx' & Hfx' & Hlfx & _ & Hsfx).
+    rewrite Hfx in Hfx'. injection Hfx' as <-.
+    assert (Hos : osum (znat fx) = osum (znat fi)).
+    { apply Nat2Z.inj. rewrite Hsfi, Hsfx, (Vs i x Hi Hx). lia. }
+    assert (Hlk : length (znat fx) = n) by (rewrite znat_length; exact Hlfx).
+    rewrite (sampler_p_marginal b n 0 U hin i fi (znat fx) Hn Hh Hli Hvi Hfi Hlk); try lia.
+    unfold entry_val. rewrite osum_app, osum_repeat0, Nat.add_0_r, Hos, Nat.sub_diag. simpl.
+    cbn [fst snd]. unfold prob_of, kofnat. unfold Rdiv. ring.
+  Qed.
+End QuickSamplerR.
+
+(* ------------------------------------------------------------------ *)
+(* Part 5: totality                                                    *)
+(* ------------------------------------------------------------------ *)
+Lemma mapM_total {A B} (f : A -> res B) l :
+  Forall (fun a => exists b, f a = Ok b) l -> exists r, mapM f l = Ok r.
+Proof.
+  induction 1 as [|a l [b Hb] _ [r Hr]]; simpl; [eexists; reflexivity|].
+  rewrite Hb, Hr. cbn [bind]. eexists; reflexivity.
+Qed.
+
+Lemma hd_photons_zero h : Forall (fun kv => snd kv = 0%Z) h -> hd_photons h = 0%Z.
+Proof. induction 1 as [|kv h Hkv _ IH]; simpl; [reflexivity|]. rewrite Hkv, IH. reflexivity. Qed.
+
+Lemma zsum_nonneg s : Forall (fun x => (0 <= x)%Z) s -> (0 <= zsum s)%Z.
+Proof. induction 1; simpl; lia. Qed.
+
+Section Totality.
+  Context {K : Type} (o : ops K).
+  Local Notation mat := (@mat (K * K)).
+
+  (* On the current tree the Analyzer does NOT work on every circuit the other
+     objects accept.  Witness 1: a herald that carries a photon (2 modes, mode 1
+     heralded with one photon, any matrix): the Simulator and the Sampler accept
+     the input |1>, the Analyzer raises ValueError ("Input matrix must be
+     square": _generate_outputs is given the photon number INCLUDING the herald
+     photon), and PhotonNumberError as soon as the circuit has a loss mode. *)
+  Theorem analyzer_total_refuted_photons (U : mat) :
+    (exists r, simulate o 2 0 U [(1, 1%Z)] [(1, 1%Z)] 1 [[1%Z]] None = Ok r) /\
+    (exists d, sampler_dist o Permanent (k0 o) 2 0 U [(1, 1%Z)] [1%Z] = Ok d) /\
+    analyze o 2 0 U [(1, 1%Z)] [(1, 1%Z)] (fun _ => Ok true) [[1%Z]] None = Err ValueError /\
+    analyze o 2 1 U [(1, 1%Z)] [(1, 1%Z)] (fun _ => Ok true) [[1%Z]] None = Err PhotonNumberError.
+  Proof.
+    split; [eexists; reflexivity|]. split; [eexists; reflexivity|]. split; reflexivity.
+  Qed.
+
+  (* Witness 2: a zero-photon herald whose input mode differs from its output
+     mode: heralds["input"] != heralds["output"] raises RuntimeError *)
+  Theorem analyzer_total_refuted_modes (U : mat) :
+    (exists r, simulate o 2 0 U [(1, 0%Z)] [(0, 0%Z)] 1 [[1%Z]] None = Ok r) /\
+    (exists d, sampler_dist o Permanent (k0 o) 2 0 U [(1, 0%Z)] [1%Z] = Ok d) /\
+    analyze o 2 0 U [(1, 0%Z)] [(0, 0%Z)] (fun _ => Ok true) [[1%Z]] None = Err OtherError.
+  Proof.
+    split; [eexists; reflexivity|]. split; [eexists; reflexivity|]. reflexivity.
+  Qed.
+
+  (* the quick sampler refuses threshold detection on a vacuum input (it keeps
+     max(s) == 1, not <= 1), which the Sampler accepts *)
+  Theorem quick_sampler_vacuum_threshold_rejected eps (U : mat) :
+    (exists d, sampler_dist o Permanent eps 2 0 U [] [0%Z; 0%Z] = Ok d) /\
+    quick_sampler o eps 2 0 U [] [] (fun _ => Ok true) false [0%Z; 0%Z] = Err ValueError.
+  Proof. split; [eexists; reflexivity|reflexivity]. Qed.
+
+  (* The Analyzer does work whenever the heralds carry no photon and sit on the
+     same modes at input and output (the only configuration the unit tests
+     use), for every input list the Simulator accepts, provided the
+     post-selection is defined on every candidate and keeps one of them, and
+     the expected mapping (if given) covers every input. *)
+  Theorem analyzer_total_partial n l (U : mat) hin hout ps inputs expected :
+    0 < n - length hin -> herald_ok n hin -> herald_ok n hout ->
+    hd_eqb hin hout = true ->
+    Forall (fun kv => snd kv = 0%Z) hin -> Forall (fun kv => snd kv = 0%Z) hout ->
+    inputs <> [] -> Forall (valid_state (n - length hin)) inputs -> all_equal (map zsum inputs) = true ->
+    (forall s, exists b, ps s = Ok b) ->
+    (exists c, In c (an_candidates (n - length hin) l (Z.to_nat (zsum (hd [] inputs)))) /\ ps (zs c) = Ok true) ->
+    match expected with
+    | Some e => forall s, In s inputs -> exp_lookup e s <> None
+    | None => True
+    end ->
+    exists r, analyze o n l U hin hout ps inputs expected = Ok r.
+  Proof.
+    intros Hm Hhin Hhout Heq Zin Zout Hne Hval Hall Hps (c0 & Hc0 & Hp0) Hexp.
+    pose proof (hd_eqb_length _ _ Heq) as Hlen. pose proof (hd_photons_zero _ Zin) as Pin.
+    pose proof (hd_photons_zero _ Zout) as Pout.
+    set (m := n - length hin) in *. set (N := Z.to_nat (zsum (hd [] inputs))) in *.
+    pose proof (proj1 (all_equal_spec _) Hall) as Hsame.
+    (* every input gets its heralds, has N photons and n + l modes *)
+    assert (Hfi : forall i, In i inputs -> exists fi, add_heralds_to_state i hin = Ok fi /\
+                    length (znat fi ++ repeat 0 l) = n + l /\ osum (znat fi ++ repeat 0 l) = N).
+    { intros i Hi. rewrite Forall_forall in Hval. destruct (Hval i Hi) as [Hli Hpi].
+      destruct (add_heralds_total n hin i Hhin Hli ltac:(lia) Hpi) as (fi & Hf & Hlf & _ & Hsf).
+      exists fi. split; [exact Hf|]. rewrite app_length, repeat_length, znat_length, Hlf. split; [reflexivity|].
+      rewrite osum_app, osum_repeat0, Nat.add_0_r. unfold N. apply Nat2Z.inj. rewrite Hsf, Pin.
+      destruct inputs as [|i0 inputs']; [contradiction|]. simpl hd.
+      rewrite (Hsame (zsum i) (zsum i0)); [|apply in_map; exact Hi|left; reflexivity].
+      assert (Hv0 : valid_state m i0) by (apply Hval; left; reflexivity).
+      pose proof (zsum_nonneg _ (proj2 Hv0)). lia. }
+    unfold analyze. rewrite Heq. cbn [negb]. fold m.
+    (* _process_inputs *)
+    assert (Hpi : exists fins, an_process_inputs m l hin inputs = Ok fins /\
+                    Forall (fun fin => length fin = n + l /\ osum fin = N) fins /\ fins <> []).
+    { unfold an_process_inputs. destruct inputs as [|i0 inputs'] eqn:Ei; [contradiction|]. rewrite <- Ei in *.
+      rewrite Hall. cbn [negb].
+      destruct (mapM_total (fun s => if negb (Nat.eqb (length s) m) then Err ModeMismatchError
+                                     else do _ <- st_validate s; add_heralds_to_state s hin) inputs) as [full Hfull].
+      { apply Forall_forall. intros i Hi. destruct (Hfi i Hi) as (fi & Hf & _).
+        rewrite Forall_forall in Hval. destruct (Hval i Hi) as [Hli Hpi].
+        exists fi. rewrite Hli, Nat.eqb_refl. cbn [negb].
+        rewrite (proj2 (st_validate_ok i) Hpi). cbn [bind]. exact Hf. }
+      rewrite Hfull. cbn [bind]. eexists. split; [reflexivity|]. apply mapM_ok in Hfull. split.
+      - apply Forall_forall. intros fin Hfin. apply in_map_iff in Hfin. destruct Hfin as [fi [<- Hfi']].
+        assert (G : exists i, In i inputs /\ add_heralds_to_state i hin = Ok fi).
+        { clear -Hfull Hfi' Hval. induction Hfull as [|i f ins fs Hif _ IH]; [contradiction|].
+          inversion Hval as [|? ? Hvi Hval']; subst.
+          destruct Hfi' as [<-|Hin].
+          - exists i. split; [left; reflexivity|]. destruct Hvi as [Hli Hpi]. rewrite Hli, Nat.eqb_refl in Hif.
+            cbn [negb] in Hif. rewrite (proj2 (st_validate_ok i) Hpi) in Hif. exact Hif.
+          - destruct (IH Hval' Hin) as [i' [Hi' Hf']]. exists i'. split; [right; exact Hi'|exact Hf']. }
+        destruct G as [i [Hi Hf]]. destruct (Hfi i Hi) as (fi' & Hf' & H1 & H2).
+        rewrite Hf in Hf'. injection Hf' as <-. split; assumption.
+      - rewrite Ei in Hfull. inversion Hfull; subst. discriminate. }
+    destruct Hpi as (fins & Hpi & Hfins & Hfne). rewrite Hpi. cbn [bind].
+    assert (EN : an_nphotons fins = N).
+    { unfold an_nphotons. destruct fins as [|f0 fins']; [contradiction|]. simpl.
+      inversion Hfins as [|? ? [_ H0] _]; subst. exact H0. }
+    rewrite EN.
+    (* _generate_outputs *)
+    unfold an_generate_outputs. rewrite (proj2 (Nat.eqb_neq m 0)) by lia.
+    destruct (an_filter_total ps hout (an_candidates m l N)) as [outs Houts].
+    { apply Forall_forall. intros c _. apply Hps. }
+    { apply Forall_forall. intros c Hc _. apply an_candidates_spec in Hc; [|lia].
+      destruct (add_heralds_total n hout (zs c) Hhout) as (fo & Hfo & _); [rewrite zs_length; lia|lia|apply zs_nonneg|].
+      exists fo. exact Hfo. }
+    rewrite Houts. cbn [bind]. pose proof (an_filter_spec o _ _ _ _ Houts) as (Hf1 & Hf2 & _).
+    assert (Hone : outs <> []).
+    { intros ->. simpl in Hf1.
+      assert (Hin : In (zs c0) (map zs (filter (fun c => ps_acc ps (zs c)) (an_candidates m l N)))).
+      { apply in_map. apply filter_In. split; [exact Hc0|]. unfold ps_acc. rewrite Hp0. reflexivity. }
+      rewrite <- Hf1 in Hin. contradiction. }
+    destruct outs as [|sf0 outs'] eqn:Eo; [contradiction|]. cbn [bind]. rewrite <- Eo in *.
+    (* _get_probs *)
+    assert (Hsf : forall sf, In sf outs -> length (znat (snd sf)) = n /\ osum (znat (snd sf)) <= N /\
+                                          (l = 0 -> osum (znat (snd sf)) = N)).
+    { intros sf Hin. assert (Hs : In (fst sf) (map fst outs)) by (apply in_map; exact Hin).
+      rewrite Hf1 in Hs. apply in_map_iff in Hs. destruct Hs as [c [Ec Hc]].
+      apply filter_In in Hc. destruct Hc as [Hc _]. apply an_candidates_spec in Hc; [|lia].
+      destruct Hc as (Hlc & Hle & H0). rewrite Forall_forall in Hf2. specialize (Hf2 sf Hin).
+      destruct (add_heralds_total n hout (zs c) Hhout) as (fo & Hfo & Hlfo & _ & Hsfo); [rewrite zs_length; lia|lia|apply zs_nonneg|].
+      rewrite <- Ec in Hf2. rewrite Hfo in Hf2. injection Hf2 as <-.
+      rewrite znat_length. split; [exact Hlfo|].
+      assert (osum (znat fo) = osum c) by (apply Nat2Z.inj; rewrite Hsfo, Pout, zsum_zs; lia).
+      split; [lia|]. intros E. rewrite (H0 E) in *. lia. }
+    assert (Hprobs : exists probs, an_probs o l U fins outs = Ok probs).
+    { unfold an_probs. apply mapM_total. apply Forall_forall. intros fin Hfin. rewrite Forall_forall in Hfins. destruct (Hfins fin Hfin) as [Hlf Hsf'].
+      apply mapM_total. apply Forall_forall. intros sf Hin. destruct (Hsf sf Hin) as (H1 & H2 & H3).
+      apply (an_entry_total (o:=o)).
+      - rewrite Hsf'. exact H2.
+      - intros E. rewrite Hsf'. exact (H3 E).
+      - rewrite Hlf. apply Nat.eq_le_incl. f_equal. symmetry. exact H1. }
+    destruct Hprobs as [probs Hprobs]. rewrite Hprobs. cbn [bind].
+    (* error rate *)
+    destruct expected as [e|]; [|cbn [bind]; eexists; reflexivity].
+    unfold an_error_rate.
+    replace (forallb _ inputs) with true.
+    - cbn [negb bind]. eexists; reflexivity.
+    - symmetry. apply forallb_forall. intros s Hs. specialize (Hexp s Hs).
+      destruct (exp_lookup e s); [reflexivity|contradiction].
+  Qed.
+
+  (* The QuickSampler works on every circuit and input the Simulator accepts,
+     lossy circuits included, with the two documented exceptions: no candidate
+     output is left by the detector / post-selection filters (ValueError), and no
+     remaining candidate has a probability above the threshold (EmulatorError). *)
+  Theorem quick_sampler_total eps n l (U : mat) hin hout ps pc input :
+    0 < n - length hin -> herald_ok n hin -> herald_ok n hout ->
+    length hout = length hin -> hd_photons hin = hd_photons hout ->
+    valid_state (n - length hin) input ->
+    (forall s, exists b, ps s = Ok b) ->
+    (exists x fi, In x (qs_cands ps pc input) /\ add_heralds_to_state input hin = Ok fi /\
+                  klt o eps (qs_w o l U hout (znat fi ++ repeat 0 l) x) = true) ->
+    exists pd, quick_sampler o eps n l U hin hout ps pc input = Ok pd.
+  Proof.
+    intros Hm Hhin Hhout Hlen Hph [Hli Hpi] Hps (x0 & fi & Hx0 & Hfi & Hk0).
+    unfold quick_sampler, quick_sampler_lazy, qs_new. rewrite Hli, Nat.eqb_refl. cbn [negb].
+    rewrite (proj2 (st_validate_ok input) Hpi). cbn [bind].
+    assert (Hm0 : length input <> 0) by lia.
+    assert (Ec : qs_candidates ps pc input = Ok (qs_cands ps pc input)).
+    { assert (E0 : qs_candidates ps pc input =
+                   if Nat.eqb (length input) 0 then Err OtherError else
+                   do outs <- filterR ps (qs_basis pc input);
+                   match outs with [] => Err ValueError | _ => Ok outs end) by reflexivity.
+      rewrite E0, (proj2 (Nat.eqb_neq _ _) Hm0).
+      destruct (filterR_total ps (qs_basis pc input)) as [r Hr]; [apply Forall_forall; intros s _; apply Hps|].
+      rewrite Hr. cbn [bind]. apply filterR_spec in Hr. destruct Hr as [-> _].
+      change (filter _ (qs_basis pc input)) with (qs_cands ps pc input).
+      destruct (qs_cands ps pc input); [contradiction|reflexivity]. }
+    rewrite Ec. cbn [bind fst snd]. replace (n + l - n) with l by lia.
+    unfold qs_probs. rewrite Hfi. cbn [bind].
+    destruct (add_heralds_total n hin input Hhin Hli ltac:(lia) Hpi) as (fi' & Hfi' & Hlfi & _ & Hsfi).
+    rewrite Hfi in Hfi'. injection Hfi' as <-.
+    destruct (qs_raw_total o eps l U hout (znat fi ++ repeat 0 l) (qs_cands ps pc input)) as [raw Hraw].
+    { apply Forall_forall. intros x Hx. unfold qs_cands in Hx. apply filter_In in Hx. destruct Hx as [Hx _].
+      apply (qs_basis_iff pc input x Hm0 Hpi) in Hx. destruct Hx as (Hlx & Hpx & Hsx & _).
+      destruct (add_heralds_total n hout x Hhout ltac:(lia) ltac:(lia) Hpx) as (fo & Hfo & Hlfo & _ & Hsfo).
+      exists fo. split; [exact Hfo|]. rewrite !osum_app, !osum_repeat0, !app_length, !repeat_length, !znat_length.
+      split; [|lia]. apply Nat2Z.inj. rewrite !Nat2Z.inj_add. simpl. lia. }
+    rewrite Hraw. cbn [bind]. apply qs_raw_spec in Hraw. destruct Hraw as [-> _].
+    assert (Hin : In x0 (filter (fun x => klt o eps (qs_w o l U hout (znat fi ++ repeat 0 l) x)) (qs_cands ps pc input))).
+    { apply filter_In. split; assumption. }
+    unfold qs_normalise. destruct (filter _ (qs_cands ps pc input)); [contradiction|]. simpl. eexists; reflexivity.
+  Qed.
+End Totality.
